@@ -9,6 +9,7 @@ import (
 	"fmt"
 	"io"
 	"net"
+	"net/netip"
 	"os"
 	"time"
 
@@ -231,26 +232,32 @@ type addr struct{ network, s string }
 func (a addr) Network() string { return a.network }
 func (a addr) String() string  { return a.s }
 
-func (c *Conn) LocalAddr() net.Addr {
-	nw := "udp"
+func (c *Conn) mkAddr(s string) net.Addr {
+	ap, err := netip.ParseAddrPort(s)
+	if err != nil {
+		if c.Stream {
+			return addr{"tcp", s}
+		}
+		return addr{"udp", s}
+	}
 	if c.Stream {
-		nw = "tcp"
+		return net.TCPAddrFromAddrPort(ap)
 	}
+	return net.UDPAddrFromAddrPort(ap)
+}
+
+func (c *Conn) LocalAddr() net.Addr {
 	if c.side == "c" {
-		return addr{nw, fmt.Sprintf("10.0.0.1:%d", 40000+c.ID)}
+		return c.mkAddr(fmt.Sprintf("10.0.0.1:%d", 40000+c.ID%20000))
 	}
-	return addr{nw, c.addr}
+	return c.mkAddr(c.addr)
 }
 
 func (c *Conn) RemoteAddr() net.Addr {
-	nw := "udp"
-	if c.Stream {
-		nw = "tcp"
-	}
 	if c.side == "s" {
-		return addr{nw, fmt.Sprintf("10.0.0.1:%d", 40000+c.ID)}
+		return c.mkAddr(fmt.Sprintf("10.0.0.1:%d", 40000+c.ID%20000))
 	}
-	return addr{nw, c.addr}
+	return c.mkAddr(c.addr)
 }
 
 func (c *Conn) SetDeadline(t time.Time) error {
